@@ -57,6 +57,7 @@ TamperVerdict(r) ==
   IF ~WellFormed(r) THEN "malformed"
   ELSE IF ~Applied(r) THEN "notapplied"
   ELSE IF r.ok # ModelAccepts(r) THEN "mismatch"
+  ELSE IF r.kind = "forge" THEN "ok"          \* conformance of the grounding checks only: the forger holds keys
   ELSE IF r.ok /\ RealChange(r) THEN "finding"
   ELSE "ok"
 
